@@ -432,5 +432,8 @@ def deep_dict_update(dest: dict[Any, Any], src: dict[Any, Any]) -> dict[Any, Any
             dest_value = dest.get(k)
             dest[k] = deep_dict_update(dest_value if isinstance(dest_value, dict) else {}, v)
         else:
-            dest[k] = v
+            # Lists (and whatever else is mutable) must not be shared between the documents a
+            # global action document is merged into: what a pipeline does to the value of one rule
+            # in place would show in all of them.
+            dest[k] = deepcopy(v)
     return dest
